@@ -3,6 +3,7 @@ package language
 import (
 	"bytes"
 	"fmt"
+	"math"
 	"reflect"
 	"strconv"
 	"strings"
@@ -1234,17 +1235,52 @@ func evalInfixUpdate(node *InfixExpression, env *Environment) Object {
 			return errObj
 		}
 
-		return &Number{Value: augend.Value + addend.Value}
+		return numberInRange(augend.Value+addend.Value, augend.Value, addend.Value)
 	case "-":
 		minuend, subtrahend, errObj := evalArithmeticTerms(node, env)
 		if isError(errObj) {
 			return errObj
 		}
 
-		return &Number{Value: minuend.Value - subtrahend.Value}
+		return numberInRange(minuend.Value-subtrahend.Value, minuend.Value, -subtrahend.Value)
 	}
 
 	return newError("unknown operator: %s", node.Operator)
+}
+
+// the magnitudes a DynamoDB number can have: up to 9.99...E+125 (38 digits), which a float64 cannot tell
+// from 1E+126, and down to 1E-130
+const (
+	numberMagnitudeLimit = 1e+126
+	minNumberMagnitude   = 1e-130
+)
+
+// numberInRange is the result of adding the two terms, or the error DynamoDB answers when the result
+// is no number it can store
+func numberInRange(value, term, otherTerm float64) Object {
+	if errObj := checkNumberRange(value, term, otherTerm); errObj != nil {
+		return errObj
+	}
+
+	return &Number{Value: value}
+}
+
+func checkNumberRange(value, term, otherTerm float64) Object {
+	if value == term || value == otherTerm {
+		// adding nothing: the result is the (valid) other term
+		return nil
+	}
+
+	magnitude := math.Abs(value)
+
+	switch {
+	case math.IsNaN(value) || magnitude >= numberMagnitudeLimit:
+		return newError("Number overflow. Attempting to store a number with magnitude larger than supported range")
+	case value != 0 && magnitude < minNumberMagnitude:
+		return newError("Number underflow. Attempting to store a number with magnitude smaller than supported range")
+	}
+
+	return nil
 }
 
 func evalAssignIndex(n Expression, i []int, val Object, env *Environment) Object {
